@@ -53,12 +53,12 @@ func (s StoreScenario) Key() string {
 // Block is a real stored block: how it was made and what it is.
 type Block struct {
 	NonCanonical bool // the stored bytes are not what the encoder would write (trailing white space): no re-encode check
-	Name  string
-	Codec uint64
-	Proto cidlink.LinkPrototype
-	Node  datamodel.Node
-	Link  datamodel.Link
-	Bytes []byte
+	Name         string
+	Codec        uint64
+	Proto        cidlink.LinkPrototype
+	Node         datamodel.Node
+	Link         datamodel.Link
+	Bytes        []byte
 }
 
 var errInjectedRead = errors.New("verif: injected storage read error")
